@@ -18,7 +18,40 @@ import judge
 from vsim import world as W
 from vsim import scenarios as S
 
-from c17 import api_post_async
+import asyncio
+
+
+def api_post_async(w, action, params):
+    """An API call whose handler waits for the engine (StartSyncExecution): post it, let the
+    engine run, then collect the response."""
+    I = w.i0()
+    if I.api_client is None:
+        w.api("ListStateMachines", {})
+    coro = I.api_client.post("/", data=json.dumps(params), headers={
+        "Content-Type": "application/x-amz-json-1.0", "x-amz-target": "AWSStepFunctions." + action})
+    task = w.loop.create_task(coro)
+    for _ in range(3):
+        for _ in range(200):
+            w.loop.run_until_complete(asyncio.sleep(0))
+            if task.done():
+                break
+        if task.done():
+            break
+        w.run()
+    if not task.done():
+        task.cancel()
+        try:
+            w.loop.run_until_complete(asyncio.sleep(0))
+        except BaseException:
+            pass
+        return 0, {}
+    resp = task.result()
+    data = w.loop.run_until_complete(resp.get_data())
+    try:
+        return resp.status_code, json.loads(data.decode("utf-8")) if data else {}
+    except ValueError:
+        return resp.status_code, {"__text__": data.decode("utf-8", "replace")[:200]}
+
 
 # the statement's numbers (deliberately not read from the code under test)
 L_DATA, L_DEF, L_NAME, L_HIST = 262144, 1048576, 80, 25000
@@ -189,20 +222,22 @@ def run_case(r, ctx):
         w = ctx.world()
         text = definition_of(n) if n else ""
         if point.startswith("Create"):
-            st, b = w.api("CreateStateMachine", {"name": ctx.fresh("d"), "definition": text, "roleArn": W.ROLE}, front=front)
+            name = ctx.fresh("d")
+            st, b = w.api("CreateStateMachine", {"name": name, "definition": text, "roleArn": W.ROLE}, front=front)
+            if st == 200:
+                w.api("DeleteStateMachine", {"stateMachineArn": W.sm_arn(name)})
         else:
             st, b = w.api("UpdateStateMachine", {"stateMachineArn": W.sm_arn("std"), "definition": text}, front=front)
         acc, err = api_outcome(st, b)
         return obs_quota(point, len(text), len(text), acc, err, st, front=front, recipe=r)
     if point.endswith(".name"):
         w = ctx.world()
-        ctx.n += 1
-        tail = "%d" % ctx.n
-        name = (r.get("fill", "x") * n)[:max(n - len(tail), 0)] + tail[:n] if n else ""
-        name = name[:n]
+        name = r.get("fill", "x") * n
         one = dumps(S.chain(("A", S.P())))
         if point == "CreateStateMachine.name":
             st, b = w.api("CreateStateMachine", {"name": name, "definition": one, "roleArn": W.ROLE}, front=front)
+            if st == 200:
+                w.api("DeleteStateMachine", {"stateMachineArn": W.sm_arn(name)})
         elif point == "StartExecution.name":
             st, b = w.api("StartExecution", {"stateMachineArn": W.sm_arn("std"), "name": name, "input": "{}"}, front=front)
             w.run()
@@ -396,12 +431,32 @@ def recipes(thorough, rng):
 
 
 def hist_recipes(thorough):
-    ns = list(range(L_HIST - 2, L_HIST + 5)) + [100, 2 * L_HIST]
+    # L-2..L+2, and L+3: the first length at which a state is entered beyond the limit (decided: refuse)
+    ns = list(range(L_HIST - 2, L_HIST + 4)) + [100, L_HIST + 1000]
     R = [{"point": "history", "natural": n, "tail": "succeed"} for n in ns]
     if thorough:
+        R += [{"point": "history", "natural": n, "tail": "succeed"} for n in (L_HIST + 4, 2 * L_HIST)]
         R += [{"point": "history", "natural": n, "tail": "pass"} for n in list(range(L_HIST - 2, L_HIST + 7)) + [L_HIST + 1000]]
         R += [{"point": "history", "natural": n, "tail": "succeed"} for n in (L_HIST - 1000, L_HIST + 5, L_HIST + 6, L_HIST + 999, 4 * L_HIST)]
     return R
+
+
+def run_chunk(items):
+    """worker process: the cases [(index, recipe)] on one shared world; [(index, observation | None, error text)]"""
+    ctx = Ctx()
+    out = []
+    try:
+        for j, r in items:
+            try:
+                out.append((j, run_case(r, ctx), ""))
+            except (RuntimeError, AssertionError, ValueError) as ex:
+                out.append((j, None, "case %s: %s" % (json.dumps(r), ex)))
+            except Exception as ex:
+                import traceback
+                out.append((j, None, "case %s: %s\n%s" % (json.dumps(r), ex, traceback.format_exc()[-1200:])))
+    finally:
+        ctx.close()
+    return out
 
 
 def for_tlc(o):
@@ -414,11 +469,11 @@ def run(tier_name=None, replay=None):
     v = Verdict("C16", t)
     rng = random.Random(get_seed() * 104729 + 16)
     workdir = os.path.join(RUN, "C16-" + t)
-    ctx = Ctx()
 
     if replay:
         rp = json.load(open(replay))
         r = rp["recipe"]
+        ctx = Ctx()
         try:
             o = hist_case(r) if r["point"] == "history" else run_case(r, ctx)
         finally:
@@ -433,6 +488,13 @@ def run(tier_name=None, replay=None):
                       "traces_validated_against_impl": 1, "samples": [o["text"]]}
         return v.finish()
 
+    # the long history runs go to worker processes (each run is an independent world), started
+    # before any thread exists
+    from concurrent.futures import ProcessPoolExecutor
+    HR = hist_recipes(thorough)
+    pool = ProcessPoolExecutor(max_workers=8)
+    hist_futures = [(r, pool.submit(hist_case, r)) for r in sorted(HR, key=lambda r: -min(r["natural"], L_HIST))]
+
     laws = {}
 
     def laws_thread():
@@ -445,21 +507,35 @@ def run(tier_name=None, replay=None):
 
     obs = []
     harness = []
-    R = recipes(thorough, rng) + hist_recipes(thorough)
-    try:
-        for r in R:
-            try:
-                o = hist_case(r) if r["point"] == "history" else run_case(r, ctx)
-            except (RuntimeError, AssertionError, ValueError) as ex:
-                harness.append("case %s: %s" % (json.dumps(r), ex))
-                continue
+    R = recipes(thorough, rng)
+    NW = 4
+    chunk_futures = [pool.submit(run_chunk, [(j, r) for j, r in enumerate(R) if j % NW == k]) for k in range(NW)]
+    got = {}
+    for fut in chunk_futures:
+        try:
+            for j, o, err in fut.result(timeout=2400):
+                if o is None:
+                    harness.append(err)
+                else:
+                    got[j] = o
+        except Exception as ex:
+            harness.append("case harness: %s" % ex)
+    for j in sorted(got):
+        o = got[j]
+        o["id"] = len(obs) + 1
+        obs.append(o)
+    done = {}
+    for r, fut in hist_futures:
+        try:
+            done[json.dumps(r, sort_keys=True)] = fut.result(timeout=1200)
+        except Exception as ex:
+            harness.append("history case %s: %s" % (json.dumps(r), ex))
+    pool.shutdown()
+    for r in HR:
+        o = done.get(json.dumps(r, sort_keys=True))
+        if o is not None:
             o["id"] = len(obs) + 1
             obs.append(o)
-    except Exception as ex:
-        import traceback
-        harness.append("case harness: %s\n%s" % (ex, traceback.format_exc()[-1500:]))
-    finally:
-        ctx.close()
 
     try:
         fails, stats = judge.run_judge("JudgeC16", [for_tlc(o) for o in obs], workdir, parts=4 if thorough else 2)
